@@ -517,23 +517,44 @@ func (th *Thread) selectOp(fr *frame, in *ssa.Select) Value {
 		states = append(states, x)
 	}
 	ready := func() int {
+		var rs []int
 		for i, s := range states {
 			if s.c == nil {
 				continue
 			}
 			if s.send {
 				if len(s.c.buf) < s.c.cap {
-					return i
+					rs = append(rs, i)
 				}
 			} else if len(s.c.buf) > 0 || m.side[closedKey{s.c}] != nil {
-				return i
+				rs = append(rs, i)
 			}
 		}
-		return -1
+		if len(rs) == 0 {
+			return -1
+		}
+		// Go picks any ready case: a decision
+		return rs[m.choose("select", len(rs))]
 	}
-	idx := ready()
-	if idx < 0 && in.Blocking {
-		m.waitUntil(th, "select", func() bool { return ready() >= 0 })
+	anyReady := func() bool {
+		for _, s := range states {
+			if s.c == nil {
+				continue
+			}
+			if s.send && len(s.c.buf) < s.c.cap {
+				return true
+			}
+			if !s.send && (len(s.c.buf) > 0 || m.side[closedKey{s.c}] != nil) {
+				return true
+			}
+		}
+		return false
+	}
+	idx := -1
+	if anyReady() {
+		idx = ready()
+	} else if in.Blocking {
+		m.waitUntil(th, "select", anyReady)
 		idx = ready()
 	}
 	res := Tuple{T.Const(64, uint64(int64(idx))), T.False}
